@@ -5,7 +5,7 @@ nothing it had established changed" (`C10_*`, `C03_forged_noop`, `C19_*`); it ke
 sessions the case established so that probes can be predicted.
   new <hidden> <ncerts> <literal|star>  -> ok
   est <cert>                            -> ok
-  t … | m … | hdr … | sni … | r … | cj …   -> ok
+  t … | m … | hdr … | sni … | r … | cj … | half …   -> ok
   probe                                 -> hs=1 est=k/k
 -/
 namespace Driver.C10
@@ -30,6 +30,9 @@ def step (w : W) : List String → W × String
   | ["sni", _] => (w, "ok")
   | ["r", n, t, s] => if isNat n ∧ isNat t ∧ isNat s then (w, "ok") else (w, "bad-op")
   | ["cj", st, n, t] => if (st = "s0" ∨ st = "s1" ∨ st = "est") ∧ isNat n ∧ isNat t then (w, "ok") else (w, "bad-op")
+  | ["half", k, n] =>
+    -- a session without keys rejects everything that names it (`Session.recvV`: `noKey`)
+    if (k = "zerokey" ∨ k = "randkey" ∨ k = "junk" ∨ k = "control-zerokey") ∧ isNat n then (w, "ok") else (w, "bad-op")
   | ["probe"] => (w, s!"hs=1 est={w.est}/{w.est}")
   | _ => (w, "bad-op")
 
